@@ -716,6 +716,14 @@ pub fn drive<F: Future>(
   }
 }
 
+thread_local! {
+  /// A module analyser that remembers what it parsed, shared by every build
+  /// and reload made on this thread while it is set (how an embedder that
+  /// keeps one `CapturingModuleAnalyzer` per session uses the crate).
+  pub static SHARED_ANALYZER: std::cell::RefCell<Option<std::rc::Rc<deno_graph::ast::CapturingModuleAnalyzer>>> =
+    const { std::cell::RefCell::new(None) };
+}
+
 pub struct BuildEnv<'a> {
   pub loader: &'a WorldLoader,
   pub opts: &'a Opts,
@@ -770,7 +778,8 @@ pub fn build_into(
   } else {
     None
   };
-  let options = BuildOptions {
+  let shared_analyzer = SHARED_ANALYZER.with(|a| a.borrow().clone());
+  let mut options = BuildOptions {
     is_dynamic: env.opts.is_dynamic,
     skip_dynamic_deps: env.opts.skip_dynamic_deps,
     unstable_bytes_imports: env.opts.unstable_bytes,
@@ -788,7 +797,16 @@ pub fn build_into(
     },
     ..Default::default()
   };
+  if let Some(a) = &shared_analyzer {
+    // BuildOptions has one lifetime for all its borrows (the locker's among
+    // them); the Rc is held by this frame until the build has finished, so
+    // lengthening the borrow is sound
+    let r: &deno_graph::ast::CapturingModuleAnalyzer = a.as_ref();
+    let r: &'static deno_graph::ast::CapturingModuleAnalyzer = unsafe { std::mem::transmute(r) };
+    options.module_analyzer = r;
+  }
   let sched = env.loader.sched.clone();
+  let _keep_alive = shared_analyzer.clone();
   let r = if reload {
     drive(graph.reload(roots, env.loader, options), &sched, schedule)
   } else {
